@@ -208,6 +208,19 @@ def yaml_text(d):
     return s.getvalue()
 
 
+def styled(text, style, yaml):
+    """the same document written differently: uniformly indented, surrounded by blank lines, or (YAML) after a
+    comment and a document-start marker"""
+    if style == "indent":
+        return "".join(("  " + ln if ln.strip() else ln) for ln in text.splitlines(True)) if yaml \
+            else "\n   " + json.dumps(json.loads(text), indent=3).replace("\n", "\n   ") + "\n"
+    if style == "blank":
+        return "\n\n" + text + "\n\n"
+    if style == "comment" and yaml:
+        return "# written by the deployment tool\n---\n" + text
+    return text
+
+
 def carrier_flavour(case):
     """resolved carrier name incl. the text flavour of files / attributes"""
     c = case["carrier"]
@@ -233,30 +246,33 @@ def make_source(case):
     """-> (source object, cleanup callable, dict-to-watch-for-mutation or None)"""
     d = spell(case["W"], case["layout"])
     fl = carrier_flavour(case)
+    st = case.get("style")
+    ytext = lambda: styled(yaml_text(d), st, True)
+    jtext = lambda: styled(json.dumps(d), st, False)
     if fl == "dict":
         return d, None, d
     if fl == "odict":
         od = OrderedDict(d)
         return od, None, od
     if fl == "yaml":
-        return yaml_text(d), None, None
+        return ytext(), None, None
     if fl == "json":
-        return json.dumps(d), None, None
+        return jtext(), None, None
     if fl == "stringio_yaml":
-        return io.StringIO(yaml_text(d)), None, None
+        return io.StringIO(ytext()), None, None
     if fl == "stringio_json":
-        return io.StringIO(json.dumps(d)), None, None
+        return io.StringIO(jtext()), None, None
     if fl.startswith("path_"):
         TMP.mkdir(exist_ok=True)
         yaml = fl.endswith("yaml")
         # ONE path per format for the whole run: the file is rewritten with the next configuration and read again
         # (an edited configuration file reloaded by the same process must be read anew)
         p = TMP / f"cfg_{os.getpid()}.{'yaml' if yaml else 'json'}"
-        p.write_text(yaml_text(d) if yaml else json.dumps(d))
+        p.write_text(ytext() if yaml else jtext())
         src = str(p) if fl.startswith("path_str") else Path(p)
         return src, p.unlink, None
     if fl.startswith("xr_global"):
-        text = yaml_text(d) if fl.endswith("yaml") else json.dumps(d)
+        text = ytext() if fl.endswith("yaml") else jtext()
         return _dataset({"ioos_qc_config": text}), None, None
     if fl == "xr_vars":
         import numpy as np
@@ -567,6 +583,8 @@ def cases_of_W(W, rng, wid, carriers=None):
             case = {"W": W, "layout": layout, "carrier": carrier, "id": f"{wid}_{layout}_{carrier}"}
             if carrier in ("path_str", "path_obj", "xr_global"):
                 case["flavour"] = rng.choice(["yaml", "json"])
+            if carrier not in ("dict", "odict"):
+                case["style"] = rng.choice([None, None, "indent", "blank", "comment"])
             case["deviation"] = deviation_of(case)
             out.append(case)
     if xr_vars_applicable(W) and (carriers is None or "xr_vars" in carriers):
